@@ -1,5 +1,9 @@
 import Qryn.Http.MainOrder
+import Qryn.Http.AuthConfig
+import Qryn.Http.Exposure
 import Qryn.Gen.Routes
+import Qryn.Gen.AuthConfig
+import Qryn.Gen.Exposure
 namespace Driver.C20
 open Qryn Qryn.Http
 
@@ -49,6 +53,17 @@ def viewSpecs : List RouteSpec :=
    ⟨false, [l "/v/datasources/", .var], "/v/datasources/{ds}", [], "view", true⟩,
    ⟨true, [l "/"], "/", [], "view", true⟩]
 
+/-- `NAME:hex` (set, `-` = empty) or `NAME:none` (unset), comma separated; `-` = no variable at all -/
+def parseEnv (s : String) : Option (List (String × Option Bytes)) :=
+  if s = "-" then some [] else
+  (s.splitOn ",").mapM (fun kv => match kv.splitOn ":" with
+    | [k, v] => (optHex v).map (fun x => (k, x))
+    | _ => none)
+
+def showInst : Option (Bytes × Bytes) → String
+  | none => "none"
+  | some (u, p) => s!"{hexOut u},{hexOut p}"
+
 def reached (r : Resp) : Option Nat :=
   r.effects.findSome? (fun e => match e with | .handler i => some i | _ => none)
 
@@ -74,7 +89,7 @@ def handle : List String → Option String
     let path ← ofHex path; let h ← optHex h; let ae ← ofHex ae; let origin ← optHex origin
     let cs := cfg.toList
     -- 'r': MODE=reader — main() skips writer.Init
-    let base := if cs.contains 'r' then Qryn.Gen.Routes.routes.filter (fun r => !r.src.startsWith "writer") else Qryn.Gen.Routes.routes
+    let base := if cs.contains 'r' then routesIn Qryn.Gen.Exposure.modeGuards "reader" Qryn.Gen.Routes.routes else Qryn.Gen.Routes.routes
     let specs := base ++ (if cs.contains 'v' then viewSpecs else [])
     let mws := (if cs.contains 'a' then [authMw l p] else []) ++ [gzipMw gzD gzMagic] ++
       (if cs.contains 'c' then [corsMw ""] else []) ++ [loggingMw]
@@ -83,5 +98,25 @@ def handle : List String → Option String
     match reached r with
     | some i => pure (if cs.contains 'b' then "reached" else s!"reached {i} cors={b01 (hdr r "Access-Control-Allow-Origin").isSome}")
     | none => pure s!"{r.status} ce={b01 (hdr r "Content-Encoding").isSome} cors={b01 (hdr r "Access-Control-Allow-Origin").isSome} www={b01 (hdr r "WWW-Authenticate").isSome}"
+  -- the configuration path: the regenerated plan of portEnv interpreted on (file credentials, environment)
+  | ["c20eff", fu, fp, env] => do
+    let fu ← ofHex fu; let fp ← ofHex fp; let e ← parseEnv env
+    let eff := AuthConfig.runPlan (AuthConfig.Env.ofList e) Qryn.Gen.AuthConfig.plan ⟨fu, fp⟩
+    pure s!"{hexOut eff.user},{hexOut eff.pass}"
+  -- … followed by main()'s guard: which BasicAuthMiddleware(login, pass) is installed, if any
+  | ["c20inst", fu, fp, env] => do
+    let fu ← ofHex fu; let fp ← ofHex fp; let e ← parseEnv env
+    pure (showInst (AuthConfig.installed Qryn.Gen.AuthConfig.plan Qryn.Gen.AuthConfig.install (AuthConfig.Env.ofList e) ⟨fu, fp⟩))
+  -- the whole path: configuration → installed middleware → the route table of the MODE → one request
+  | ["c20servemode", mode, fu, fp, env, method, path, h] => do
+    let mode ← ofHex mode; let fu ← ofHex fu; let fp ← ofHex fp; let e ← parseEnv env
+    let path ← ofHex path; let h ← optHex h
+    let inst := AuthConfig.installed Qryn.Gen.AuthConfig.plan Qryn.Gen.AuthConfig.install (AuthConfig.Env.ofList e) ⟨fu, fp⟩
+    let specs := routesIn Qryn.Gen.Exposure.modeGuards (String.ofList (mode.map (fun b => Char.ofNat b.toNat))) Qryn.Gen.Routes.routes
+    let R : Router := ⟨tableOf specs stub, AuthConfig.mainChain inst [gzipMw gzD gzMagic, loggingMw], isCleanPath⟩
+    let r := serve R ⟨method, path, h, [], none⟩
+    match reached r with
+    | some _ => pure "reached"
+    | none => pure s!"{r.status}"
   | _ => none
 end Driver.C20
